@@ -140,6 +140,27 @@ impl SharedHistory {
 }
 
 
+/// # Verification support
+#[cfg(routinator_verif)]
+impl SharedHistory {
+    /// Starts the history at the given serial number.
+    ///
+    /// Must be called before the first update. Seeds the history with one
+    /// empty delta leading to `serial`, so that the first data set gets
+    /// that serial number.
+    pub fn verif_seed_serial(&self, serial: Serial) {
+        self.write().deltas.push_front(
+            Arc::new(PayloadDelta::empty(serial))
+        )
+    }
+
+    /// Returns the number of currently retained deltas.
+    pub fn verif_retained(&self) -> usize {
+        self.read().deltas.len()
+    }
+}
+
+
 //--- PayloadSource
 
 impl PayloadSource for SharedHistory {
